@@ -1467,6 +1467,14 @@ where
         )));
     }
 
+    // Every phase folds at least once (native: `InvalidLogArity`); a zero-arity phase would be an
+    // identity fold with its own commitment and beta.
+    if let Some(phase) = log_arities.iter().position(|&log_arity| log_arity == 0) {
+        return Err(VerificationError::InvalidProofShape(format!(
+            "phase {phase}: log_arity must be at least 1"
+        )));
+    }
+
     if num_queries != index_bits_per_query.len() {
         return Err(VerificationError::InvalidProofShape(format!(
             "index_bits_per_query length must equal number of query proofs: expected {}, got {}",
